@@ -981,3 +981,7 @@ impl StreamInterestProvider for ReceiveStream {
 
 #[cfg(test)]
 mod tests;
+
+#[cfg(all(aws_s2n_quic_verif, any(test, all(kani, feature = "testing"))))]
+#[path = "/verif/harness/transport/rx_flow.rs"]
+mod verif;
